@@ -8,7 +8,10 @@
 (* canonical order is simply 1, 2, ..., N.                                                         *)
 EXTENDS Integers, Sequences, FiniteSets
 
-CONSTANTS N, W, None
+CONSTANTS N, W, None,
+          Rule      \* which statement of each rule is in force; StdRule is the definition, every other value is a
+                    \* deliberate mis-statement used only by LachesisAlt.tla to search for separating DAGs
+StdRule == [roots |-> "span", tie |-> "yes", quorum |-> "ge", fcfork |-> "check", fccount |-> "nofork", first |-> "one"]
 V == 1..N
 RECURSIVE SumW(_)
 SumW(S) == IF S = {} THEN 0 ELSE LET v == CHOOSE x \in S : TRUE IN W[v] + SumW(S \ {v})
@@ -21,13 +24,14 @@ Cheaters(evf, A) == {v \in V : ForkSeenIn(evf, A, v)}
 
 \* "an event with ancestry A is forkless-caused by b"
 FCset(evf, ancf, A, b) ==
-  /\ ~ForkSeenIn(evf, A, evf[b].cr)
-  /\ SumW({v \in V : ~ForkSeenIn(evf, A, v) /\ \E x \in A : evf[x].cr = v /\ b \in ancf[x]}) >= Quorum
+  /\ (Rule.fcfork = "ignore" \/ ~ForkSeenIn(evf, A, evf[b].cr))
+  /\ SumW({v \in V : (Rule.fccount = "all" \/ ~ForkSeenIn(evf, A, v)) /\ \E x \in A : evf[x].cr = v /\ b \in ancf[x]}) >= Quorum
 FC(evf, ancf, a, b) == FCset(evf, ancf, ancf[a], b)
 
 SpFrame(evf, e) == IF evf[e].sp = None THEN 0 ELSE evf[evf[e].sp].fr
 \* e is a root of every frame above its self-parent's up to its own
-RootsAt(evf, f) == {e \in DOMAIN evf : SpFrame(evf, e) < f /\ f <= evf[e].fr}
+RootsAt(evf, f) == IF Rule.roots = "span" THEN {e \in DOMAIN evf : SpFrame(evf, e) < f /\ f <= evf[e].fr}
+                   ELSE {e \in DOMAIN evf : SpFrame(evf, e) < evf[e].fr /\ f = evf[e].fr}
 
 \* frame rule for a new event with ancestry A (including itself) whose self-parent has frame sf
 FCQ(evf, ancf, A, f) == SumW({evf[r].cr : r \in {r \in RootsAt(evf, f) : FCset(evf, ancf, A, r)}}) >= Quorum
@@ -35,9 +39,12 @@ RECURSIVE Climb(_,_,_,_,_)
 Climb(evf, ancf, A, f, cap) == IF f < cap /\ FCQ(evf, ancf, A, f) THEN Climb(evf, ancf, A, f + 1, cap) ELSE f
 \* the highest allowed frame (what Build assigns), at most 100 above the self-parent's
 MaxAllowed(evf, ancf, A, sf) == LET f == Climb(evf, ancf, A, sf, sf + 100) IN IF f = 0 THEN 1 ELSE f
+\* (mis-statement "climb": an event without self-parent climbs from frame 1 like any other event)
+MaxAllowedNoSp(evf, ancf, A) == IF Rule.first = "one" THEN 1 ELSE Climb(evf, ancf, A, 1, 101)
 \* claimed frame c is allowed
 Allowed(evf, ancf, A, sf, hasSp, c) ==
-  IF ~hasSp THEN c = 1 ELSE c >= sf /\ Climb(evf, ancf, A, sf, c) = c
+  IF ~hasSp THEN (IF Rule.first = "one" THEN c = 1 ELSE c >= 1 /\ Climb(evf, ancf, A, 1, c) = c)
+  ELSE c >= sf /\ Climb(evf, ancf, A, sf, c) = c
 
 \* ------------------------------------------------------------------ virtual voting for frame d
 RECURSIVE VoteYes(_,_,_,_,_,_)
@@ -47,10 +54,12 @@ NoW(evf, ancf, r, f, v, d)  == SumW({evf[x].cr : x \in {x \in Obs(evf, ancf, r, 
 \* vote of root r of frame f (> d) on validator v
 VoteYes(evf, ancf, r, f, v, d) ==
   IF f = d + 1 THEN \E x \in RootsAt(evf, d) : evf[x].cr = v /\ FC(evf, ancf, r, x)
-  ELSE YesW(evf, ancf, r, f, v, d) >= NoW(evf, ancf, r, f, v, d)          \* a tie counts as yes
+  ELSE IF Rule.tie = "yes" THEN YesW(evf, ancf, r, f, v, d) >= NoW(evf, ancf, r, f, v, d)          \* a tie counts as yes
+       ELSE YesW(evf, ancf, r, f, v, d) > NoW(evf, ancf, r, f, v, d)
+DecideAt == IF Rule.quorum = "ge" THEN Quorum ELSE Quorum + 1
 Tally(evf, ancf, r, f, v, d) ==                                             \* f >= d + 2
-  IF YesW(evf, ancf, r, f, v, d) >= Quorum THEN "Y"
-  ELSE IF NoW(evf, ancf, r, f, v, d) >= Quorum THEN "N" ELSE "-"
+  IF YesW(evf, ancf, r, f, v, d) >= DecideAt THEN "Y"
+  ELSE IF NoW(evf, ancf, r, f, v, d) >= DecideAt THEN "N" ELSE "-"
 
 MaxFrame(evf) == IF DOMAIN evf = {} THEN 0 ELSE CHOOSE m \in {evf[e].fr : e \in DOMAIN evf} : \A e \in DOMAIN evf : evf[e].fr <= m
 Cands(evf, d) == {c \in (DOMAIN evf) \X ((d + 2)..MaxFrame(evf)) : c[1] \in RootsAt(evf, c[2])}
@@ -67,6 +76,9 @@ AtroposOf(evf, ancf, d) ==
   LET v == FirstYes(evf, ancf, d, 1) IN
   IF v = 0 THEN None
   ELSE CHOOSE x \in RootsAt(evf, d) : evf[x].cr = v /\ \E r \in RootsAt(evf, d + 1) : FC(evf, ancf, r, x)
+
+RECURSIVE AtroposSeq(_,_,_)
+AtroposSeq(evf, ancf, d) == LET a == AtroposOf(evf, ancf, d) IN IF a = None THEN <<>> ELSE <<a>> \o AtroposSeq(evf, ancf, d + 1)
 
 RECURSIVE DeclBlocks(_,_,_,_)
 DeclBlocks(evf, ancf, d, confirmed) ==
